@@ -18,7 +18,7 @@ def run(chk):
         "Norm is trim-then-strip in one pass, exactly as both registration and lookup apply it (it is not idempotent on "
         "strings like '/ /' whose white space is exposed by stripping the slashes; C11 only requires both sides to agree)",
     ]
-    alpha = ["/", "SP", "a", ".", "TAB"] if thorough else ["/", "SP", "a", "."]
+    alpha = ["/", "SP", "a", ".", "TAB", "NBSP", "VT"] if thorough else ["/", "SP", "a", ".", "NBSP"]
     r1 = mc(chk, "text", 5 if thorough else 4, 2, 1, alpha)
     chk.expect_holds(r1, "laws of RuxPath, FormatPath = Norm")
     chk.add_tlc(r1, "all token strings <=%d over %s, prefixes <=2" % (5 if thorough else 4, alpha))
